@@ -71,6 +71,7 @@ def floors(tier):
         "runs:clock_sum_checked": 400 * k,
         "decided:outside_time_charges_nonzero": 50000 * k,
         "decided:completion_time_polls": 20000 * k,
+        "runs:table_columns_in_other_order_than_config_space": 200 * k,
         "decided:completions_observed_at_or_after_completion_time": 300 * k,
         "runs:max_resource_attr": 100 * k,
         "runs:per_trial_seed": 100 * k,
@@ -206,6 +207,8 @@ def run_case(spec):
             return o.result()
     tab = r.tab
     names = tab["names"]
+    if tab.get("table_column_order") != tab["cols"]:
+        o.count("runs:table_columns_in_other_order_than_config_space")
     et_i = names.index("elapsed_time")
     obj = tab["obj"]
     grid_index = {g: i for i, g in enumerate(tab["grid"])}
